@@ -454,10 +454,16 @@ def gen_fhistories(ctx, cfg):
         sigma = [x for x in reads if not (x[1] and not x[3])] + \
             [['S', A, 0], ['S', B, 1], ['SC', A, 0, k1], ['RFC', 0, 0, 1, k2]]
     hs = []
-    for a in sigma:
-        for b in sigma:
-            hs.append({'src': 0, 'ops': [a, b, ['RF', 0, 1, 1]], 'kind': 'flags-exhaustive-3'})
-    for _ in range(400 if thorough else 40):
+    pairs = [(a, b) for a in sigma for b in sigma]
+    if len(pairs) > 600:
+        # thorough alphabet: every pair with a plain read / save first or second, a seeded sample of the rest
+        plain = [p_ for p_ in pairs if p_[0][0] in ('RF', 'S') and p_[1][0] in ('RF', 'S')]
+        rest = [p_ for p_ in pairs if p_ not in plain]
+        r.shuffle(rest)
+        pairs = plain + rest[:max(0, 600 - len(plain))]
+    for a, b in pairs:
+        hs.append({'src': 0, 'ops': [a, b, ['RF', 0, 1, 1]], 'kind': 'flags-exhaustive-3'})
+    for _ in range(200 if thorough else 40):
         ops = []
         for _i in range(r.randint(3, 6)):
             x = r.random()
